@@ -39,6 +39,7 @@ func sortValueInterp(c *Ctx, w *absint.World) *absint.Interp {
 	it := newInterp(c, w)
 	ternaryModels(c, it.Models)
 	mathModels(it.Models)
+	timeModels(it.Models)
 	svt := c.P.Type("lib/query", "SortValueType")
 	it.EnumConsts = func(t types.Type) []*types.Const {
 		if svt != nil && types.Identical(t, svt) {
@@ -56,6 +57,11 @@ func sortValueInterp(c *Ctx, w *absint.World) *absint.Interp {
 		if f.Parent() != nil {
 			return true
 		}
+		// the two anchors themselves, so that one defined through the other (EquivalentTo as the
+		// tie of Less) is executed rather than an opaque call
+		if n := c.P.Name(f); n == "lib/query.(*SortValue).Less" || n == "lib/query.(*SortValue).EquivalentTo" {
+			return true
+		}
 		return f.Object() != nil && !f.Object().Exported()
 	}
 	it.AtomKey = func(k string) string {
@@ -63,6 +69,24 @@ func sortValueInterp(c *Ctx, w *absint.World) *absint.Interp {
 		return strings.ReplaceAll(k, "nil:B.SerializedKey", "nil:A.SerializedKey")
 	}
 	return it
+}
+
+// timeModels: the comparisons of time.Time answer from one three-valued order
+// decision per unordered pair of instants (as == and < do for scalars), so that a
+// sort value that keeps the time itself is evaluated like one that keeps a number.
+func timeModels(m map[string]absint.Model) {
+	ord := func(f func(o int) absint.Val) absint.Model {
+		return func(it *absint.Interp, call ssa.CallInstruction, a []absint.Val) (absint.Val, bool) {
+			if len(a) != 2 || a[0].Sym == "" || a[1].Sym == "" {
+				return absint.Val{}, false
+			}
+			return f(it.Order(a[0], a[1])), true
+		}
+	}
+	m["(time.Time).Equal"] = ord(func(o int) absint.Val { return absint.Bool(o == 0) })
+	m["(time.Time).Before"] = ord(func(o int) absint.Val { return absint.Bool(o < 0) })
+	m["(time.Time).After"] = ord(func(o int) absint.Val { return absint.Bool(o > 0) })
+	m["(time.Time).Compare"] = ord(func(o int) absint.Val { return absint.Int(int64(o)) })
 }
 
 func ruleSrt1(c *Ctx) {
